@@ -360,7 +360,8 @@ class ModCase:
         n = self.n
         return {"from": "from %s" % n, "join": "from zt | select {a} | join %s (==a)" % n,
                 "append": "from zt | select {a, b} | append %s" % n,
-                "value": "from zt | select {a} | derive {z = %s}" % n}[self.site]
+                "value": "from zt | select {a} | derive {z = %s}" % n,
+                "value-open": "from zt | derive {z = %s}" % n}[self.site]
 
     def text(self):
         ind = lambda s, k: "\n".join(" " * k + l for l in s.split("\n"))
@@ -401,7 +402,8 @@ class ModCase:
             mods.append((["m", self.n], nk))
         for owner in [m for m, k in mods if k == "NModule" and m[-1] == self.n]:
             mods.append((owner + ["kk"], "NValue"))
-        frame = "(mkFrame [mkInput %s [%s] false] [])" % (s("zt"), s("a")) if self.site == "value" else "(mkFrame [] [])"
+        frame = ("(mkFrame [mkInput %s [%s] false] [])" % (s("zt"), s("a")) if self.site == "value" else
+                 "(mkFrame [mkInput %s [] true] [])" % s("zt") if self.site == "value-open" else "(mkFrame [] [])")
         r = "[" + "; ".join("(%s, %s)" % (s(a), b) for a, b in root) + "]"
         m = "[" + "; ".join("([%s], %s)" % ("; ".join(s(x) for x in p), k) for p, k in mods) + "]"
         c = "[" + "; ".join(s(x) for x in cur) + "]"
@@ -421,7 +423,21 @@ def module_cases(g, n):
         depth = g.pick([1, 1, 2])
         kind = g.pick(["const", "const", "table", "func", "module"])
         where = g.pick(["own", "own", "root", "none"] + (["parent", "parent"] if depth == 2 else []))
-        site = g.pick(["from", "join", "append", "value"])
+        site = g.pick(["from", "join", "append", "value", "value-open"])
         name = g.pick(["k", "r", "zq", "cnt"]) + str(g.r.randrange(1, 9))
         out.append(ModCase(depth, kind, where, site, name))
     return out
+
+
+# ---------------------------------------------------------------- type names (fold_type: this / that shadowed)
+TYPE_DECLS = ["type zty = int", "let zk = 5"]
+TYPE_ROOT = [("zty", "NType"), ("zk", "NValue")]
+# (annotation text, ident, what) besides the columns / inputs of the frame
+TYPE_NAMES = [
+    # int float bool text date time timestamp are KEYWORDS of the type grammar (prqlc-parser parser/types.rs: TyKind::Primitive),
+    # they never reach fold_type's identifier branch: controls, the model is not consulted
+    ("int", ([], "int"), "primitive-keyword"), ("float", ([], "float"), "primitive-keyword"), ("date", ([], "date"), "primitive-keyword"),
+    ("zty", ([], "zty"), "user-type"), ("zty", ([], "zty"), "user-type"), ("std.int", (["std"], "int"), "std-type"), ("std.float", (["std"], "float"), "std-type"),
+    ("std.date", (["std"], "date"), "std-module-or-type"),
+    ("math", ([], "math"), "module"), ("sum", ([], "sum"), "function"), ("zk", ([], "zk"), "constant"), ("nosuchty", ([], "nosuchty"), "undeclared"),
+]
